@@ -794,7 +794,7 @@ class Server:
                 if creds is None:
                     self.violation("OAUTHBEARER payload malformed: %r" % raw[:80])
         elif mech == "DIGEST-MD5":
-            creds = st.get("creds") if st.get("ok") else None
+            creds = st.get("creds")
         self.log.append(("auth-creds", mech, creds))
         f = self.faults.get("auth-verdict")
         if f == "NO":
@@ -808,6 +808,8 @@ class Server:
         if creds is not None:
             want = self.users.get(creds["login"])
             ok = want is not None and want == creds["password"]
+            if mech == "DIGEST-MD5":
+                ok = bool(st.get("ok"))
         if ok:
             self.authenticated = True
             self.auth_user = creds["login"]
@@ -848,7 +850,7 @@ class Server:
         good = resp(b"AUTHENTICATE:" + d[b"digest-uri"])
         st["rspauth"] = resp(b":" + d[b"digest-uri"])
         if d[b"response"] != good:
-            self.violation("DIGEST-MD5 response value does not verify")
+            self.log.append(("digest-response-mismatch",))
             return False
         return True
 
